@@ -319,6 +319,48 @@ fn datalog_source_short_key() -> Option<String> {
     if found.is_empty() { None } else { Some(found.join("; ")) }
 }
 
+/// C09 / C20: Datalog source with an unbound parameter nested in a collection
+fn nested_unbound_parameter() -> Option<String> {
+    let root = KeyPair::new();
+    let mut found = vec![];
+    for src in ["f([{p}])", "f({{p}})", "f({\"a\": {p}})", "f({{k}: 1})", "f([[{p}]])"] {
+        match quiet(|| Biscuit::builder().fact(src).map(|b| b.build(&root).map(|_| ()))) {
+            Err(p) => found.push(format!("fact({:?}) then build panics: {}", src, p)),
+            Ok(_) => {}
+        }
+    }
+    for src in ["check if f($x), $x == [{p}]", "check if f($x), [1].any($y -> $y == {p})", "check if f({p})", "check if true trusting {k}"] {
+        match quiet(|| Biscuit::builder().check(src).map(|b| b.build(&root).map(|_| ()))) {
+            Err(p) => found.push(format!("check({:?}) then build panics: {}", src, p)),
+            Ok(_) => {}
+        }
+    }
+    if found.is_empty() { None } else { Some(found.join("; ")) }
+}
+
+/// C09: an authorizer restored from a snapshot whose generated facts name a symbol that is not in the table
+fn snapshot_unknown_symbol_dump() -> Option<String> {
+    use prost::Message;
+    use biscuit_auth::format::schema;
+    let root = KeyPair::new();
+    let t = Biscuit::builder().fact("f(1)").unwrap().rule("g($x) <- f($x)").unwrap().build(&root).unwrap();
+    let mut a = AuthorizerBuilder::new().policy("allow if true").unwrap().build(&t).unwrap();
+    a.authorize().unwrap();
+    let raw = a.to_raw_snapshot().unwrap();
+    let mut snap = schema::AuthorizerSnapshot::decode(&raw[..]).unwrap();
+    if snap.world.generated_facts.is_empty() || snap.world.generated_facts[0].facts.is_empty() { return None; }
+    snap.world.generated_facts[0].facts[0].predicate.name = 999_999;      // no such symbol
+    let mut out = Vec::new();
+    snap.encode(&mut out).unwrap();
+    let restored = match Authorizer::from_raw_snapshot(&out) { Ok(r) => r, Err(_) => return None };
+    let mut found = vec![];
+    match quiet(|| restored.dump_code()) { Err(p) => found.push(format!("dump_code() panics: {}", p)), Ok(_) => {} }
+    match quiet(|| restored.dump()) { Err(p) => found.push(format!("dump() panics: {}", p)), Ok(_) => {} }
+    match quiet(|| restored.print_world()) { Err(p) => found.push(format!("print_world() panics: {}", p)), Ok(_) => {} }
+    match quiet(|| restored.to_raw_snapshot().map(|_| ())) { Err(p) => found.push(format!("to_raw_snapshot() panics: {}", p)), Ok(_) => {} }
+    if found.is_empty() { None } else { Some(format!("Authorizer::from_raw_snapshot(generated fact with symbol id 999999) is Ok, then {}", found.join("; "))) }
+}
+
 /// run `case` in a child process; report how it ended (a panic inside an extern "C" function aborts the process)
 fn in_child(case: &str) -> Result<String, String> {
     let exe = std::env::current_exe().unwrap();
@@ -448,6 +490,8 @@ fn main() {
         "snapshot_iteration_underflow" => snapshot_iteration_underflow(),
         "snapshot_iteration_overflow" => snapshot_iteration_overflow(),
         "closure_shadowing" => closure_shadowing(),
+        "snapshot_unknown_symbol_dump" => snapshot_unknown_symbol_dump(),
+        "nested_unbound_parameter" => nested_unbound_parameter(),
         "datalog_source_short_key" => datalog_source_short_key(),
         "dump_malformed_expression" => dump_malformed_expression(),
         "facts_over_budget_at_start" => facts_over_budget_at_start(),
